@@ -72,6 +72,8 @@ def candidate_values(sb: dict[str, Any], live: list[dict[str, Any]]) -> list[flo
     for v in (sb["lo"], sb["hi"], sb["xlo"], sb["xhi"]):
         if v is not None:
             pts.update({v, v - 1, v + 1})
+    if sb["xlo"] != sb["xhi"]:
+        pts.add((sb["xlo"] + sb["xhi"]) / 2)      # equidistant from both edges of the exclusion zone: a tie
     for p in live:
         for v in (p["lower"], p["upper"], p["pref"]):
             if v is not None:
